@@ -773,6 +773,10 @@ def getinterpweights(xs, nxs, kind='linear', fill_value='extrapolate',
 
     """
     from scipy.interpolate import interp1d
+    if np.size(xs) == 1:
+        # a single level cannot be interpolated (interp1d yields nan weights):
+        # its value is used for every new coordinate
+        return np.ones((1, np.size(nxs)), dtype='d')
     # identity matrix
     ident = np.identity(xs.size)
     # weight function; use bounds outside
